@@ -1,5 +1,6 @@
 #![allow(dead_code)]
 mod checksum;
+mod corpus;
 mod dynafed;
 mod fmr;
 mod issuance;
@@ -8,6 +9,7 @@ mod psetview;
 mod sha256c;
 mod tok;
 mod util;
+mod wire;
 
 use util::Out;
 
@@ -37,6 +39,14 @@ fn main() {
         ("psetview", "locktime") => psetview::locktime(rest, &mut out),
         ("psetview", "history") => psetview::history(rest, &mut out),
         ("psetview", "record") => psetview::record(rest, &mut out),
+        ("psetview", "roundtrip") => psetview::roundtrip(rest, &mut out),
+        ("wire", "base") => wire::base(rest, &mut out),
+        ("wire", "wire") => wire::wire(rest, &mut out),
+        ("wire", "txfields") => wire::txfields(rest, &mut out),
+        ("wire", "header") => wire::header(rest, &mut out),
+        ("wire", "block") => wire::block(rest, &mut out),
+        ("wire", "typed") => wire::typed(rest, &mut out),
+        ("wire", "record") => wire::record(rest, &mut out),
         ("dynafed", "record") => dynafed::record(rest, &mut out),
         (m, c) => {
             eprintln!("unknown command {} {}", m, c);
